@@ -7,7 +7,6 @@ variable {α : Type} [Add α] [Mul α] [Sub α] [Div α] [Neg α] [OfNat α 0] [
   [Max α] [LT α] [DecidableLT α] [Transc α]
 
 
-def absv (a : α) : α := if a < 0 then -a else a
 /-- np.logaddexp -/
 def logaddexp (a b : α) : α := max a b + Transc.log (1 + Transc.exp (-(absv (a - b))))
 /-- np.logaddexp.reduce over axis 0 (non-empty) -/
@@ -183,14 +182,6 @@ namespace BobEM
 section
 variable {α : Type} [Add α] [Mul α] [Sub α] [Div α] [Neg α] [OfNat α 0] [OfNat α 1] [OfNat α 2]
   [Max α] [LT α] [DecidableLT α] [LE α] [DecidableLE α] [Transc α] {C D : Nat}
-
-/-- `abs((prev - cur) / prev)` -/
-def relChange (prev cur : α) : α := absv ((prev - cur) / prev)
-/-- `convergence_threshold is not None and convergence_value <= convergence_threshold` -/
-def convStop (thr : Option α) (prev cur : α) : Bool :=
-  match thr with
-  | none => false
-  | some t => decide (relChange prev cur ≤ t)
 
 /-- one iteration of `GMMMachine.fit` (ML): E-step, M-step, and the reported criterion = average
 log-likelihood of the parameters *entering* the iteration -/
